@@ -9,7 +9,7 @@ from harness import collide as C
 from harness import protocol as P
 from harness import kernel as K
 from harness import forge as F
-from harness.world import State
+from harness.world import State, HarnessError
 
 ck = Check('C10', 'model_checking')
 SCEN = C.scenario_list(ck.quick)
@@ -239,6 +239,71 @@ def run(i):
     return ex.summary()
 
 
+def giveup_faults():
+    """the tear-down that happens in the timer sweep of main_loop (the peer is gone, the retransmissions of a request run
+    out): re-executed once per DELSA request with an error reply and once with the netlink socket failing.  One sweep
+    later at the latest, nothing of the IKE_SA is left in the kernel."""
+    out, n = [], 0
+    for config in ('match', 'v6-outer'):
+        for extra in (0, 1):
+            for kind in ('dpd', 'rekey_ike', 'soft'):
+                w = C.build(dict(config=config, budget=dict(trig=0, fault=0)))
+                if extra:
+                    w.step(('acquire', 'A', 0, 0))
+                    w.deliver_all()
+                w.step(('crash', 'B'))
+                a = w.endpoints['A']
+                if kind == 'soft':
+                    w.step(('expire', 'A', bytes(a.controller.ike_sas[0].child_sas[0].inbound_spi), False))
+                else:
+                    w.step(('due', 'A', 0, kind))
+                for d in list(w.net):
+                    w.step(('drop', d.id))
+                # tick until the step in which the IKE_SA is given up
+                for _ in range(200):
+                    dl = P.next_retransmit_deadline(w)
+                    if dl is None:
+                        break
+                    pre = w.fork()
+                    w.step(('tick', max(0.0, dl - w.clock) + 0.01))
+                    for d in list(w.net):
+                        w.step(('drop', d.id))
+                    if not w.endpoints['A'].controller.ike_sas:
+                        break
+                else:
+                    raise HarnessError('no give-up')
+                dels = [j for j, r in enumerate(w.endpoints['A'].kernel.log[len(pre.endpoints['A'].kernel.log):])
+                        if r[1] and r[1]['type'] == K.XFRM_MSG_DELSA]
+                if w.endpoints['A'].kernel.sad or not dels:
+                    raise HarnessError('give-up step did not empty the SAD (%d left, %d DELSA)' % (len(w.endpoints['A'].kernel.sad), len(dels)))
+                dl = P.next_retransmit_deadline(pre)
+                for j in dels:
+                    for how in ('reply-ENOMEM', 'socket-ENOBUFS'):
+                        n += 1
+                        f = pre.fork()
+                        if how.startswith('reply'):
+                            f.endpoints['A'].kernel.fail_next(j, K.ENOMEM)
+                        else:
+                            f.endpoints['A'].kernel.sock_fail_next(j, ENOBUFS)
+                        f.step(('tick', max(0.0, dl - f.clock) + 0.01))
+                        lab = 'giveup:%s:%s:children=%d:delsa#%d:%s' % (config, kind, 1 + extra, j, how)
+                        e = f.endpoints['A']
+                        if not e.alive:
+                            out.append(('M-exc', 'giveup-fault-escape:%s:%s' % (e.dead_reason[0], how), '%s: %s left main_loop: %s' % (
+                                lab, e.dead_reason[0], e.dead_reason[1][:200]), lab))
+                            continue
+                        f.step(('tick', 1.5))
+                        f.step(('tick', 1.5))
+                        tracked = [c for x in e.controller.ike_sas for c in x.child_sas]
+                        # an SA whose DELSA the kernel itself refused is the kernel's business; everything else must be gone
+                        allowed = 1 if how.startswith('reply') else 0
+                        if len(e.kernel.sad) > allowed + 2 * len(tracked) or (how.startswith('socket') and e.kernel.sad and not tracked):
+                            out.append(('M-sad', 'giveup-fault:left=%d:%s' % (len(e.kernel.sad), how),
+                                        '%s: %d SAs still in the kernel two sweeps later, %d CHILD_SAs tracked by %d IKE_SAs' % (
+                                            lab, len(e.kernel.sad), len(tracked), len(e.controller.ike_sas)), lab))
+    return n, out
+
+
 def run_foreign(i):
     ex = C.explore(FOREIGN_SCENARIOS[i], [], [sm_foreign], quick=ck.quick, max_states=None if ck.quick else 200000,
                    jobs=0 if ck.quick else ck.jobs)
@@ -247,6 +312,12 @@ def run_foreign(i):
 
 def replay(path):
     doc = jdec(json.load(open(path)))
+    if doc['scenario'].get('giveup'):
+        res = [x for x in giveup_faults()[1] if x[3] == doc['scenario']['giveup']]
+        for r in res:
+            print('reproduced:', r[0], r[1], r[2])
+        print('REPLAY %s' % ('reproduces a violation' if res else 'does not reproduce'))
+        sys.exit(1 if res else 0)
     w = C.build(doc['scenario'])
     res = []
     hist = list(doc['history'])
@@ -284,6 +355,10 @@ def main():
         cover.update(sm.get('cover', {}))
         print('  foreign-peer scenario', {k: v for k, v in fstats[-1].items() if k != 'cover'})
     stats += fstats
+    n_giveup, gv = giveup_faults()
+    for mon, sig, msg, lab in gv:
+        ck.violation('%s:%s' % (mon, sig), msg, dict(scenario=dict(giveup=lab), history=[]))
+    cover['giveup-fault-reexecutions'] = n_giveup
     m = merge_stats(stats)
     ck.coverage.update(states=m['states'], transitions=m['transitions'] + cover['kfault-reexecutions'],
                        max_depth=m['max_depth'], traces_validated_against_impl=m['replays_validated'],
